@@ -44,29 +44,6 @@ pub proof fn lemma_fp_same_zero(s1: int, e1: int, s2: int, e2: int)
         assert(0 * pw2 == 0);
     }
 }
-/// something can only be cut off from a non-zero value
-pub proof fn lemma_fp_trunc_nonzero(q: int, N: int, D: int, ws: int, we: int)
-    requires D > 0, fp_trunc_at(q, N, D, ws, we)
-    ensures N != 0
-{
-    let L = ndigits(2, ws) as int;
-    let gq = if q > L { q - L } else { 0 };
-    let ex = we - gq;
-    let pg = ipow(2, gq as nat);
-    let ps = ipow(2, (if ex < 0 { -ex } else { 0 }) as nat);
-    let pk = ipow(2, (if ex > 0 { ex } else { 0 }) as nat);
-    lemma_ipow_pos(2, gq as nat);
-    lemma_ipow_pos(2, (if ex > 0 { ex } else { 0 }) as nat);
-    let A = iabs(ws) * pg;
-    let Da = D * pk;
-    let Xa = iabs(N) * ps;
-    if N == 0 {
-        assert(Xa == 0) by (nonlinear_arith) requires Xa == iabs(N) * ps, iabs(N) == 0;
-        assert(A >= 0) by (nonlinear_arith) requires A == iabs(ws) * pg, iabs(ws) >= 0, pg >= 1;
-        assert(A * Da >= 0) by (nonlinear_arith) requires A >= 0, Da == D * pk, D > 0, pk >= 1;
-        assert(false);
-    }
-}
 /// vstd's pow2 is ipow(2, .)
 pub proof fn lemma_fp_pow2_ipow(n: nat)
     ensures pow2(n) == ipow(2, n)
@@ -405,92 +382,192 @@ pub proof fn lemma_fp_once_digits(m: Mode, p: nat, N: int, D: int, mid: Mid)
 }
 
 // ------------------------------------------------------------------------------------------------------------------
-// convert_to_binary_once, Inexact conversion: sticky bit below the truncated significand, then ONE rounding
+// convert_to_binary_once: exact division with guard bits, sticky bit, then ONE rounding
 
-/// shape of the sticky-extended significand S = ws * 2^pad + sign(ws): odd, exactly L + pad bits, and the truncated
-/// part M = ws * 2^pad fills the binade: 2^(n-1) <= |M|, |M| + 2 <= 2^n
-pub proof fn lemma_fp_sticky_shape(ws: int, pad: nat, S: int)
-    requires ws != 0, pad >= 1, S == ws * ipow(2, pad) + (if ws < 0 { -1int } else { 1int })
-    ensures S % 2 != 0, S != 0, (S < 0) == (ws < 0),
-        ndigits(2, S) == ndigits(2, ws) + pad,
-        iabs(S) == iabs(ws) * ipow(2, pad) + 1,
-        ipow(2, (ndigits(2, ws) + pad - 1) as nat) <= iabs(ws) * ipow(2, pad),
-        iabs(ws) * ipow(2, pad) + 2 <= ipow(2, ndigits(2, ws) + pad),
+/// fx_num / fx_den of a binary float scaled to a common exponent lo <= min(e, 0)
+pub proof fn lemma_fp_scaled(s: int, e: int, lo: int)
+    requires lo <= e, lo <= 0
+    ensures fx_num(2, s, e) * ipow(2, (-lo) as nat) == (s * ipow(2, (e - lo) as nat)) * fx_den(2, e)
+{
+    let z = ipow(2, (-lo) as nat);
+    let w = ipow(2, (e - lo) as nat);
+    if e >= 0 {
+        lemma_ipow_add(2, e as nat, (-lo) as nat);
+        assert((e as nat + (-lo) as nat) as nat == (e - lo) as nat);
+        let pe = ipow(2, e as nat);
+        assert((s * pe) * z == s * w) by (nonlinear_arith) requires w == pe * z;
+        assert((s * w) * 1 == s * w);
+    } else {
+        lemma_ipow_add(2, (e - lo) as nat, (-e) as nat);
+        assert(((e - lo) as nat + (-e) as nat) as nat == (-lo) as nat);
+        let pe = ipow(2, (-e) as nat);
+        assert(s * z == (s * w) * pe) by (nonlinear_arith) requires z == w * pe;
+    }
+}
+/// the value of a binary float does not depend on the representation: (s1, e1) and (s2, e2) denote the same number and
+/// (s2, e2) is the fraction N / D  ==>  so is (s1, e1)
+pub proof fn lemma_fp_value_transfer(s1: int, e1: int, s2: int, e2: int, N: int, D: int)
+    requires same_value(2, s1, e1, s2, e2), fx_num(2, s2, e2) * D == N * fx_den(2, e2)
+    ensures fx_num(2, s1, e1) * D == N * fx_den(2, e1)
+{
+    let m12 = if e1 <= e2 { e1 } else { e2 };
+    let lo = if m12 <= 0 { m12 } else { 0 };
+    let z = ipow(2, (-lo) as nat);
+    lemma_ipow_pos(2, (-lo) as nat);
+    let w1 = ipow(2, (e1 - lo) as nat);
+    let w2 = ipow(2, (e2 - lo) as nat);
+    let t1 = s1 * w1;
+    let t2 = s2 * w2;
+    if e1 <= e2 {
+        lemma_ipow_add(2, (e2 - e1) as nat, (e1 - lo) as nat);
+        assert(((e2 - e1) as nat + (e1 - lo) as nat) as nat == (e2 - lo) as nat);
+        let d = ipow(2, (e2 - e1) as nat);
+        assert(t1 == t2) by (nonlinear_arith) requires t1 == s1 * w1, s1 == s2 * d, t2 == s2 * w2, w2 == d * w1;
+    } else {
+        lemma_ipow_add(2, (e1 - e2) as nat, (e2 - lo) as nat);
+        assert(((e1 - e2) as nat + (e2 - lo) as nat) as nat == (e1 - lo) as nat);
+        let d = ipow(2, (e1 - e2) as nat);
+        assert(t1 == t2) by (nonlinear_arith) requires t1 == s1 * w1, s2 == s1 * d, t2 == s2 * w2, w1 == d * w2;
+    }
+    lemma_fp_scaled(s1, e1, lo);
+    lemma_fp_scaled(s2, e2, lo);
+    let (A1, F1, A2, F2) = (fx_num(2, s1, e1), fx_den(2, e1), fx_num(2, s2, e2), fx_den(2, e2));
+    lemma_fp_den_pos(2, e1);
+    lemma_fp_den_pos(2, e2);
+    assert(A1 * z == t1 * F1);
+    assert(A2 * z == t1 * F2);
+    let L = A1 * D;
+    let R = N * F1;
+    let c = z * F2;
+    assert(c >= 1) by (nonlinear_arith) requires c == z * F2, z >= 1, F2 >= 1;
+    let tFD = (t1 * F1) * D;
+    assert(L * z == tFD) by (nonlinear_arith) requires L == A1 * D, A1 * z == t1 * F1, tFD == (t1 * F1) * D;
+    let lhs = L * c;
+    assert(lhs == tFD * F2) by (nonlinear_arith) requires lhs == L * c, c == z * F2, L * z == tFD;
+    let A2D = A2 * D;
+    assert(R * F2 == A2D * F1) by (nonlinear_arith) requires R == N * F1, A2D == N * F2;
+    let rhs = R * c;
+    let A2z = A2 * z;
+    assert(rhs == (A2z * D) * F1) by (nonlinear_arith) requires rhs == R * c, c == z * F2, R * F2 == A2D * F1, A2D == A2 * D, A2z == A2 * z;
+    assert((A2z * D) * F1 == tFD * F2) by (nonlinear_arith) requires A2z == t1 * F2, tFD == (t1 * F1) * D;
+    assert(L == R) by (nonlinear_arith) requires L * c == R * c, c >= 1;
+}
+/// the normalised representation (s1 odd) of a non-zero binary float (S, e2): exponent not below, same leading position
+pub proof fn lemma_fp_norm_room(s1: int, e1: int, S: int, e2: int)
+    requires same_value(2, s1, e1, S, e2), S != 0, s1 % 2 != 0
+    ensures e1 >= e2, ndigits(2, s1) + e1 == ndigits(2, S) + e2
+{
+    if e1 < e2 {
+        let j = (e2 - e1 - 1) as nat;
+        lemma_fp_ipow2_succ(j);
+        assert((j + 1) as nat == (e2 - e1) as nat);
+        let t = ipow(2, j);
+        let st = S * t;
+        assert(S * (2 * t) == 2 * st) by (nonlinear_arith) requires st == S * t;
+        assert(false);
+    } else {
+        lemma_nd_shift(2, s1, (e1 - e2) as nat);
+    }
+}
+/// b <= 2^64  ==>  b^k <= 2^W whenever 64 * k <= W
+pub proof fn lemma_fp_pow_bits(b: int, k: nat, W: nat)
+    requires 1 <= b <= 0x1_0000_0000_0000_0000, 64 * k <= W
+    ensures ipow(b, k) <= ipow(2, W), ipow(b, k) >= 1
+    decreases k
+{
+    lemma_ipow_pos(b, k);
+    if k == 0 {
+        lemma_ipow_pos(2, W);
+    } else {
+        lemma_fp_pow_bits(b, (k - 1) as nat, (W - 64) as nat);
+        lemma_ipow_add(2, 64, (W - 64) as nat);
+        assert((64 + (W - 64) as nat) as nat == W);
+        assert(ipow(2, 64) == 0x1_0000_0000_0000_0000) by (compute);
+        let (x, y, c) = (ipow(b, (k - 1) as nat), ipow(2, (W - 64) as nat), ipow(2, 64));
+        assert(b * x <= c * y) by (nonlinear_arith) requires 1 <= b <= c, 1 <= x <= y;
+    }
+}
+/// v < 2^n as a bound of the bit length, and back
+pub proof fn lemma_fp_blen_bound(v: int)
+    ensures iabs(v) < ipow(2, blen(v)), v != 0 ==> ipow(2, (blen(v) - 1) as nat) <= iabs(v)
 {
     broadcast use ax_ndigits;
-    let L = ndigits(2, ws);
-    let n: nat = L + pad;
-    let pp = ipow(2, pad);
-    lemma_fp_ipow2_succ((pad - 1) as nat);
-    assert(((pad - 1) as nat + 1) as nat == pad);
-    let t = ipow(2, (pad - 1) as nat);
-    let M = ws * pp;
-    let wt = ws * t;
-    assert(M == 2 * wt) by (nonlinear_arith) requires M == ws * pp, pp == 2 * t, wt == ws * t;
-    lemma_fp_abs_mul(ws, pp);
-    let aw = iabs(ws);
-    let aM = aw * pp;
-    assert(iabs(M) == aM);
-    assert(aM >= 2) by (nonlinear_arith) requires aM == aw * pp, aw >= 1, pp >= 2;
-    assert((M < 0) == (ws < 0)) by (nonlinear_arith) requires M == ws * pp, pp >= 2;
-    assert(iabs(S) == aM + 1);
-    lemma_ipow_add(2, (L - 1) as nat, pad);
-    lemma_ipow_add(2, L, pad);
-    assert(((L - 1) as nat + pad) as nat == (n - 1) as nat);
-    let (lo, hi) = (ipow(2, (L - 1) as nat), ipow(2, L));
-    assert(lo * pp <= aM) by (nonlinear_arith) requires aM == aw * pp, lo <= aw, pp >= 2;
-    assert(aM <= hi * pp - pp) by (nonlinear_arith) requires aM == aw * pp, aw <= hi - 1, pp >= 2;
-    lemma_nd_unique(2, S, n);
+    lemma_fp_blen_nd(v);
+    lemma_fp_ipow01(2);
+}
+/// the shift of convert_to_binary_once gives the quotient at least p + 2 bits: with
+/// bits(num) + sh >= p + 2 + bits(den)  the quotient of num * 2^sh by den is at least 2^(p+1)
+pub proof fn lemma_fp_quot_bits(num: int, den: int, sh: nat, p: nat, q: int, r: int)
+    requires num >= 1, den >= 1, blen(num) + sh >= p + 2 + blen(den),
+        num * ipow(2, sh) == q * den + r, 0 <= r < den,
+    ensures q >= ipow(2, p + 1)
+{
+    lemma_fp_blen_bound(num);
+    lemma_fp_blen_bound(den);
+    let (bn, bd) = (blen(num), blen(den));
+    let P = ipow(2, p + 1);
+    lemma_ipow_pos(2, p + 1);
+    // num * 2^sh >= 2^(bn - 1 + sh) >= 2^(p + 1 + bd) = P * 2^bd > P * den
+    lemma_ipow_add(2, (bn - 1) as nat, sh);
+    lemma_ipow_le(2, (p + 1 + bd) as nat, ((bn - 1) as nat + sh) as nat);
+    lemma_ipow_add(2, p + 1, bd);
+    let (lo, ps, hd) = (ipow(2, (bn - 1) as nat), ipow(2, sh), ipow(2, bd));
+    lemma_ipow_pos(2, sh);
+    let X0 = num * ps;
+    assert(X0 >= lo * ps) by (nonlinear_arith) requires X0 == num * ps, num >= lo, ps >= 1;
+    assert(X0 >= P * hd);
+    let Pd = P * den;
+    assert(Pd < P * hd) by (nonlinear_arith) requires Pd == P * den, den < hd, P >= 1;
+    // q * den + r > P * den with r < den  ==>  q >= P
+    let qd = q * den;
+    assert(q >= P) by (nonlinear_arith) requires qd == q * den, Pd == P * den, qd + r > Pd, r < den, den >= 1;
+}
+/// digit count of the sticky-extended significand (resource bound only): |S| <= 2q + 1 with q <= num * 2^sh < 2^(nb + sh)
+pub proof fn lemma_fp_near_room(num: int, den: int, sh: nat, nb: nat, q: int, r: int, S: int)
+    requires 0 <= num < ipow(2, nb), den >= 1, num * ipow(2, sh) == q * den + r, 0 <= r, q >= 0, iabs(S) <= 2 * q + 1
+    ensures ndigits(2, S) <= nb + sh + 2
+{
+    let ps = ipow(2, sh);
+    lemma_ipow_pos(2, sh);
+    lemma_ipow_add(2, nb, sh);
+    let X0 = num * ps;
+    let hb = ipow(2, nb);
+    assert(X0 <= (hb - 1) * ps) by (nonlinear_arith) requires X0 == num * ps, num <= hb - 1, ps >= 1;
+    assert((hb - 1) * ps == hb * ps - ps) by (nonlinear_arith);
+    let qd = q * den;
+    assert(q <= qd) by (nonlinear_arith) requires qd == q * den, den >= 1, q >= 0;
+    lemma_fp_ipow2_succ(nb + sh);
+    assert(iabs(S) <= ipow(2, nb + sh + 1));
+    lemma_ndigits_le_pow(2, S, nb + sh + 1);
 }
 
-/// THE ASSEMBLY for an Inexact truncated conversion.  ws * 2^we is x = N / D truncated at q = p + 2 (or more) digits
-/// (fp_trunc_at: assumed contract of convert_base, mode Zero), S the sticky-extended significand at exponent we - pad with
-/// pad = (zero digits that fill ws up to q) + 1, `ret` the result of `repr_round` on (S, we - pad): then ret is x
-/// rounded ONCE to p bits, and it is Inexact.
-pub proof fn lemma_fp_once_sticky<const BB: Word>(m: Mode, p: usize, N: int, D: int, ws: int, we: int, pad: nat, S: int, ret: Rounded<Repr<BB>>)
-    requires p >= 1, D > 0, N != 0,
-        fp_trunc_at(p + 2, N, D, ws, we),
-        ndigits(2, ws) <= p + 3,
-        pad == (if p + 2 > ndigits(2, ws) { p + 2 - ndigits(2, ws) } else { 0 }) + 1,
-        S == ws * ipow(2, pad) + (if ws < 0 { -1int } else { 1int }),
-        round_once(m, 2, p, S, we - pad, ret),
+/// THE ASSEMBLY for an inexact division (sticky bit set).  S is odd with at least p + 2 bits, the exact value x = N / D
+/// scaled by 2^s lies strictly within one unit of S on either side, `ret` is the result of `repr_round` on (S, -s):
+/// then ret is x rounded ONCE to p bits, and it is Inexact.
+pub proof fn lemma_fp_once_sticky<const BB: Word>(m: Mode, p: usize, N: int, D: int, S: int, s: nat, ret: Rounded<Repr<BB>>)
+    requires p >= 1, D > 0, S % 2 != 0, ndigits(2, S) >= p + 2,
+        (S - 1) * D < N * ipow(2, s), N * ipow(2, s) < (S + 1) * D,
+        round_once(m, 2, p, S, -(s as int), ret),
     ensures bin_once(m, p as nat, N, D, mid_of(ret)), ret is Inexact,
 {
     broadcast use ax_ndigits;
     let pn = p as nat;
-    let q = p + 2;
-    let L = ndigits(2, ws) as int;
-    let gq: int = if q > L { q - L } else { 0 };
-    assert(pad == gq + 1);
-    let ex = we - gq;
-    let sa: nat = (if ex < 0 { -ex } else { 0 }) as nat;
-    let ka: nat = (if ex > 0 { ex } else { 0 }) as nat;
-    let pg = ipow(2, gq as nat);
-    let A = iabs(ws) * pg;
-    let Xa = iabs(N) * ipow(2, sa);
-    let Da = D * ipow(2, ka);
-    assert(A * Da < Xa && Xa < (A + 1) * Da);
-    lemma_ipow_pos(2, ka);
-    lemma_ipow_pos(2, sa);
-    assert(Da > 0) by (nonlinear_arith) requires Da == D * ipow(2, ka), D > 0, ipow(2, ka) >= 1;
-    // the sticky-extended significand
-    lemma_fp_sticky_shape(ws, pad, S);
-    let n: nat = (L + pad) as nat;
-    assert(ndigits(2, S) == n);
-    assert(n >= pn + 3);
+    let X = N * ipow(2, s);
+    lemma_ipow_pos(2, s);
+    if N == 0 {
+        assert(X == 0) by (nonlinear_arith) requires X == N * ipow(2, s), N == 0;
+        assert(S - 1 < 0) by (nonlinear_arith) requires (S - 1) * D < 0, D > 0;
+        assert(S + 1 > 0) by (nonlinear_arith) requires 0 < (S + 1) * D, D > 0;
+        assert(false);
+    }
+    let n = ndigits(2, S);
     let kk = (n - pn) as nat;
-    let pp = ipow(2, pad);
-    lemma_fp_ipow2_succ(gq as nat);
-    assert((gq as nat + 1) as nat == pad);
-    assert(pp == 2 * pg);
-    let aM = iabs(ws) * pp;
-    assert(aM == 2 * A) by (nonlinear_arith) requires aM == iabs(ws) * pp, pp == 2 * pg, A == iabs(ws) * pg;
     let mid = mid_of(ret);
     match ret {
         Approximation::Exact(r) => { assert(false); },
         Approximation::Inexact(r, adj) => {
             let mm = choose|mm: int| #[trigger] round_witness(m, 2, S, kk, mm, adj)
-                && same_value(2, r.significand.v(), r.exponent as int, mm, (we - pad) + kk) && iabs(mm) <= ipow(2, pn);
+                && same_value(2, r.significand.v(), r.exponent as int, mm, -(s as int) + kk) && iabs(mm) <= ipow(2, pn);
             let u = ipow(2, kk);
             // u is a multiple of 4
             lemma_fp_ipow2_succ((kk - 1) as nat);
@@ -498,49 +575,123 @@ pub proof fn lemma_fp_once_sticky<const BB: Word>(m: Mode, p: usize, N: int, D: 
             assert(((kk - 1) as nat + 1) as nat == kk);
             assert(((kk - 2) as nat + 1) as nat == (kk - 1) as nat);
             assert(u == 4 * ipow(2, (kk - 2) as nat));
-            // the exact value at the scale of S: X / Da with X = N * 2^(sa + 1)
-            let s: nat = sa + 1;
-            let k: nat = ka + kk;
-            let X = N * ipow(2, s);
-            let Dn = D * ipow(2, k);
-            lemma_fp_ipow2_succ(sa);
-            let N2 = N * ipow(2, sa);
-            assert(X == 2 * N2) by (nonlinear_arith) requires X == N * (2 * ipow(2, sa)), N2 == N * ipow(2, sa);
-            lemma_fp_abs_mul(N, ipow(2, sa));
-            assert(iabs(N2) == Xa);
-            assert((N2 < 0) == (N < 0)) by (nonlinear_arith) requires N2 == N * ipow(2, sa), ipow(2, sa) >= 1;
-            lemma_ipow_add(2, ka, kk);
-            assert(Dn == Da * u) by (nonlinear_arith) requires Dn == D * (ipow(2, ka) * u), Da == D * ipow(2, ka);
-            // S - 1 < X / Da < S + 1
-            let ADa = A * Da;
-            if ws > 0 {
-                assert(S == 2 * A + 1);
-                assert((S - 1) * Da == 2 * ADa) by (nonlinear_arith) requires S - 1 == 2 * A, ADa == A * Da;
-                assert((S + 1) * Da == 2 * ((A + 1) * Da)) by (nonlinear_arith) requires S + 1 == 2 * (A + 1);
-                assert(X == 2 * Xa);
-            } else {
-                assert(S == -(2 * A) - 1);
-                assert((S + 1) * Da == -(2 * ADa)) by (nonlinear_arith) requires S + 1 == -(2 * A), ADa == A * Da;
-                assert((S - 1) * Da == -(2 * ((A + 1) * Da))) by (nonlinear_arith) requires S - 1 == -(2 * (A + 1));
-                assert(X == -(2 * Xa));
-            }
-            assert((S - 1) * Da < X && X < (S + 1) * Da);
-            lemma_fp_sticky_core(m, S, u, Da, X, mm - adj_int(adj), mm);
-            // range: 2^(p-1) * Dn <= |X| < 2^p * Dn
+            lemma_fp_sticky_core(m, S, u, D, X, mm - adj_int(adj), mm);
+            let Dn = D * ipow(2, kk);
+            // range: 2^(p-1) * Dn <= |X| < 2^p * Dn   (2^(n-1) is even and |S| is odd: 2^(n-1) <= |S| - 1, |S| + 1 <= 2^n)
             lemma_ipow_add(2, (pn - 1) as nat, kk);
             lemma_ipow_add(2, pn, kk);
             assert(((pn - 1) as nat + kk) as nat == (n - 1) as nat);
             assert((pn + kk) as nat == n);
+            lemma_fp_ipow2_succ((n - 2) as nat);
+            assert(((n - 2) as nat + 1) as nat == (n - 1) as nat);
             let (P1, P0) = (ipow(2, pn), ipow(2, (pn - 1) as nat));
-            assert(iabs(X) == 2 * Xa);
-            assert(P0 * u <= 2 * A && 2 * A + 2 <= P1 * u);
+            let (lo, hi) = (P0 * u, P1 * u);
+            assert(lo <= iabs(S) - 1 && iabs(S) + 1 <= hi);
             let aX = iabs(X);
-            assert(P0 * Dn <= aX) by (nonlinear_arith) requires Dn == Da * u, P0 * u <= 2 * A, 2 * ADa < aX, ADa == A * Da, Da > 0;
-            let A1Da = (A + 1) * Da;
-            assert(aX < P1 * Dn) by (nonlinear_arith) requires Dn == Da * u, 2 * A + 2 <= P1 * u, aX < 2 * A1Da, A1Da == (A + 1) * Da, Da > 0;
-            assert(k - s == (we - pad) + kk);
-            assert(once_wit(m, pn, N, D, s, k, mm, mid));
+            let loD = lo * D;
+            let hiD = hi * D;
+            if S > 0 {
+                assert(loD <= (S - 1) * D) by (nonlinear_arith) requires loD == lo * D, lo <= S - 1, D > 0;
+                assert((S + 1) * D <= hiD) by (nonlinear_arith) requires hiD == hi * D, S + 1 <= hi, D > 0;
+            } else {
+                assert((S + 1) * D <= -loD) by (nonlinear_arith) requires loD == lo * D, S + 1 <= -lo, D > 0;
+                assert(-hiD <= (S - 1) * D) by (nonlinear_arith) requires hiD == hi * D, -hi <= S - 1, D > 0;
+            }
+            assert(loD < aX && aX < hiD);
+            assert(P0 * Dn == loD) by (nonlinear_arith) requires Dn == D * u, lo == P0 * u, loD == lo * D;
+            assert(P1 * Dn == hiD) by (nonlinear_arith) requires Dn == D * u, hi == P1 * u, hiD == hi * D;
+            assert(kk - s == -(s as int) + kk);
+            assert(once_wit(m, pn, N, D, s, kk, mm, mid));
         },
+    }
+}
+
+/// THE ASSEMBLY of convert_to_binary_once on its exact path.  |N| * 2^sh = q * D + r (0 <= r < D), the quotient has at
+/// least p + 2 bits, S = +-(2q + sticky) with the sign of N at exponent -(sh + 1), (s1, e1) the normalised representation
+/// `Repr::new` makes of it, `ret` the result of `repr_round` on (s1, e1): then ret is N / D rounded ONCE to p bits.
+pub proof fn lemma_fp_once_near<const BB: Word>(m: Mode, p: usize, N: int, D: int, sh: nat, q: int, r: int, S: int, s1: int, e1: int, ret: Rounded<Repr<BB>>)
+    requires p >= 1, D > 0, N != 0,
+        iabs(N) * ipow(2, sh) == q * D + r, 0 <= r < D,
+        q >= ipow(2, (p + 1) as nat),
+        S == (if N < 0 { -(2 * q + (if r != 0 { 1int } else { 0int })) } else { 2 * q + (if r != 0 { 1int } else { 0int }) }),
+        same_value(2, s1, e1, S, -(sh as int) - 1), fp_normal(2, s1),
+        round_once(m, 2, p, s1, e1, ret),
+    ensures bin_once(m, p as nat, N, D, mid_of(ret)),
+{
+    broadcast use ax_ndigits;
+    let pn = p as nat;
+    let e2 = -(sh as int) - 1;
+    let P = ipow(2, pn + 1);
+    lemma_ipow_pos(2, pn + 1);
+    let ps = ipow(2, sh);
+    lemma_ipow_pos(2, sh);
+    lemma_fp_ipow2_succ(sh);
+    let s: nat = sh + 1;
+    let X = N * ipow(2, s);
+    let aN = iabs(N);
+    let X0 = aN * ps;
+    let qD = q * D;
+    assert(S != 0);
+    if s1 == 0 { lemma_fp_same_zero(s1, e1, S, e2); }
+    if r == 0 {
+        // exact: S * 2^e2 == N / D
+        assert((-e2) as nat == s);
+        if N > 0 {
+            assert(N * (2 * ps) == (2 * q) * D) by (nonlinear_arith) requires N * ps == qD, qD == q * D;
+        } else {
+            assert(N * (2 * ps) == (-(2 * q)) * D) by (nonlinear_arith) requires (-N) * ps == qD, qD == q * D;
+        }
+        assert(fx_num(2, S, e2) * D == N * fx_den(2, e2));
+        lemma_fp_value_transfer(s1, e1, S, e2, N, D);
+        lemma_fp_once_of_round(m, p, s1, e1, N, D, ret);
+    } else {
+        assert(S % 2 != 0);
+        lemma_fp_odd_norm(s1, e1, S, e2);
+        // S - 1 < x * 2^s < S + 1
+        let q2D = (2 * q) * D;
+        let q22D = (2 * q + 2) * D;
+        assert(q2D == 2 * qD) by (nonlinear_arith) requires q2D == (2 * q) * D, qD == q * D;
+        assert(q22D == 2 * qD + 2 * D) by (nonlinear_arith) requires q22D == (2 * q + 2) * D, qD == q * D;
+        if N > 0 {
+            assert(X == 2 * X0) by (nonlinear_arith) requires X == N * (2 * ps), X0 == N * ps;
+            assert((S - 1) * D == q2D && (S + 1) * D == q22D);
+        } else {
+            assert(X == -(2 * X0)) by (nonlinear_arith) requires X == N * (2 * ps), X0 == (-N) * ps;
+            assert((S + 1) * D == -q2D) by (nonlinear_arith) requires S + 1 == -(2 * q), q2D == (2 * q) * D;
+            assert((S - 1) * D == -q22D) by (nonlinear_arith) requires S - 1 == -(2 * q + 2), q22D == (2 * q + 2) * D;
+        }
+        // at least p + 3 digits
+        let n = ndigits(2, S);
+        if n < pn + 3 {
+            lemma_ipow_le(2, n, pn + 2);
+            lemma_fp_ipow2_succ(pn + 1);
+            assert(false);
+        }
+        lemma_fp_once_sticky(m, p, N, D, S, s, ret);
+    }
+}
+
+/// the far-range shortcut: both float tests seen through the ASSUMED enclosure (ax_fp_est_gt / _lt / ax_fp_gt_mono)
+pub proof fn lemma_fp_far(lb: f32, ub: f32, aN: int, D: int)
+    requires D > 0, aN >= 0, fp_est_lo(lb, aN, D), fp_est_hi(ub, aN, D),
+        fp_f32_gt(lb, 4096) || fp_f32_lt(ub, -4096),
+    ensures fp_f32_gt(lb, 0) ==> aN > ipow(2, 4096) * D,
+        !fp_f32_gt(lb, 0) ==> aN * ipow(2, 4096) < D,
+{
+    lemma_ipow_pos(2, 4096);
+    lemma_fp_ipow01(2);
+    let P = ipow(2, 4096);
+    if fp_f32_gt(lb, 4096) {
+        ax_fp_gt_mono(lb, 4096, 0);
+        ax_fp_est_gt(lb, 4096, aN, D);
+    } else {
+        ax_fp_est_lt(ub, 4096, aN, D);
+        if fp_f32_gt(lb, 0) {
+            ax_fp_est_gt(lb, 0, aN, D);
+            assert(1 * D == D);
+            assert(aN * P >= aN) by (nonlinear_arith) requires aN >= 0, P >= 1;
+            assert(false);
+        }
     }
 }
 
@@ -560,7 +711,7 @@ pub proof fn lemma_fp_mid_of_round<const BB: Word>(m: Mode, p: usize, sig: int, 
 }
 /// `first.and_then(|v| v.into_f32_internal())`: the two contracts composed
 pub proof fn lemma_fp_compose32<const BB: Word>(m: Mode, N: int, D: int, first: Rounded<Repr<BB>>, o: Rounded<f32>)
-    requires bin_once(m, 24, N, D, mid_of(first)), fp_into32_post(rd_val0(first), o)
+    requires fp_first(m, 24, N, D, mid_of(first)), fp_into32_post(rd_val0(first), o)
     ensures fp_two_stage32(m, N, D, mid_of(first), and_then_spec(first, o))
 {
     let mid = mid_of(first);
@@ -568,7 +719,7 @@ pub proof fn lemma_fp_compose32<const BB: Word>(m: Mode, N: int, D: int, first: 
     assert(and_then_spec(first, o) == fp_then(mid.adj, o));
 }
 pub proof fn lemma_fp_compose64<const BB: Word>(m: Mode, N: int, D: int, first: Rounded<Repr<BB>>, o: Rounded<f64>)
-    requires bin_once(m, 53, N, D, mid_of(first)), fp_into64_post(rd_val0(first), o)
+    requires fp_first(m, 53, N, D, mid_of(first)), fp_into64_post(rd_val0(first), o)
     ensures fp_two_stage64(m, N, D, mid_of(first), and_then_spec(first, o))
 {
     let mid = mid_of(first);
